@@ -50,6 +50,9 @@ def generate(tier, seed):
         tunit = rng.choice(['AU', 'AU', 'pc']) if kind == 'conv' else 'AU'
         runit = rng.choice(['table', 'table', 'pc', 'cm', 'km']) if kind == 'conv' else rng.choice(['bare', 'bare', 'AU', 'pc'])
         c = dict(kind=kind, aps=aps, val=val, req=req, tunit=tunit, runit=runit, below=below)
+        if kind == 'conv' and nap > 1 and not below and k % 8 == 5:
+            # the SAME request object is then passed to a second table that reaches further out
+            c['twice'] = dict(ap=hi * 1000.0, val=[rng.logdyadic(0.01, 100.0, 10) for _ in range(nm)])
         if kind == 'var':
             nf = rng.randint(1, 5)
             fw = sorted(set(rng.dyadic(0.5, 50.0, 8) for _ in range(nf * 2)))[:nf]
@@ -84,9 +87,17 @@ def impl(case):
         ru = tu if case['runit'] == 'table' else u.Unit(case['runit'])
         req = (np.array(case['req']) / LEN[str(ru)]) * ru
         r = c.interpolate(req)
-        return dict(flux=[[float(x) for x in row] for row in r.flux.to(u.mJy).value], error=[[float(x) for x in row] for row in r.error.to(u.mJy).value],
-                    names=[str(x) for x in r.model_names], wav=float(r.central_wavelength.to(u.micron).value),
-                    out_aps=[float(x) for x in r.apertures.to(u.au).value])
+        out = dict(flux=[[float(x) for x in row] for row in r.flux.to(u.mJy).value], error=[[float(x) for x in row] for row in r.error.to(u.mJy).value],
+                   names=[str(x) for x in r.model_names], wav=float(r.central_wavelength.to(u.micron).value),
+                   out_aps=[float(x) for x in r.apertures.to(u.au).value])
+        if case.get('twice'):
+            aps2 = np.array(list(case['aps']) + [case['twice']['ap']])
+            flux2 = np.array([list(row) + [v] for row, v in zip(flux, case['twice']['val'])])
+            c2 = ConvolvedFluxes(wavelength=2.0 * u.micron, model_names=np.array(['m%d' % i for i in range(len(case['val']))]),
+                                 apertures=(aps2 / LEN[case['tunit']]) * tu, flux=flux2 * u.mJy, error=flux2 * 0.25 * u.mJy)
+            r2 = c2.interpolate(req)
+            out['flux2'] = [[float(x) for x in row] for row in r2.flux.to(u.mJy).value]
+        return out
     from sedfitter.sed import SED
     s = SED()
     s.name = 'x'
@@ -185,6 +196,19 @@ def judge(case, im, mo):
                 fail.append('variable: at the filter wavelength %r (aperture %r AU) the curve has %r; the interpolant at that aperture is %r' % (w, a, im['flux'][k], float(want)))
                 break
         return dict(disagree=disagree[:2], fail=fail[:2], nontrivial=len(aps) > 1, tags=tags)
+    if 'flux2' in im:
+        tags.append('twice')
+        aps2 = list(aps) + [case['twice']['ap']]
+        for mi, m in enumerate(case['val']):
+            col2 = [m[i][0] for i in range(len(aps))] + [case['twice']['val'][mi]]
+            for j, r in enumerate(case['req']):
+                want = _doc(aps2, col2, r)
+                if want is not None and abs(F(im['flux2'][mi][j]) - want) > Fraction(1, 10 ** 8) * abs(want):
+                    fail.append('history: the same request (%r AU) passed on to a second table reaching further out gives %r; the interpolant at that radius is %r (the first call changed the request in place)'
+                                % (r, im['flux2'][mi][j], float(want)))
+                    break
+            if fail:
+                break
     # conv / sed: values per (model, wavelength, request)
     idx = 0
     for mi, m in enumerate(case['val']):
